@@ -433,6 +433,7 @@ def _ema_grouped_timed(
     residuals = np.zeros(ngroups, dtype="float64")
     residual_weights = np.zeros(ngroups, dtype="float64")
     last_seen_times = np.zeros(ngroups, dtype="int64")
+    group_seen = np.zeros(ngroups, dtype=np.bool_)
     last_seen = np.full(ngroups, np.nan, dtype="float64")
 
     masked = mask is not None
@@ -442,7 +443,7 @@ def _ema_grouped_timed(
             # rows with a null key belong to no group
             out[i] = np.nan
             continue
-        if last_seen_times[k] > 0:
+        if group_seen[k]:
             hl = (times[i] - last_seen_times[k]) / halflife
             beta = np.exp(-np.log(2) * hl)
             residuals[k] *= beta
@@ -456,6 +457,7 @@ def _ema_grouped_timed(
             residuals[k] += x
 
         last_seen_times[k] = times[i]
+        group_seen[k] = True
         last_seen[k] = out[i]
 
     return out
